@@ -87,6 +87,70 @@ theorem validate_total_aux (g : Graph) (nodes : List Nat) (hc : Closed g nodes) 
       unfold validate; rw [if_neg hin]
       exact h1
 
+theorem gdescend_total_aux (g : Graph) (guarded : Nat → Bool) (rank : Nat → Nat) (hr : UnguardedRanked g guarded rank)
+    (nodes : List Nat) (hc : Closed g nodes) (R : Nat) (hR : ∀ i ∈ nodes, rank i ≤ R) :
+    ∀ fuel i vis, i ∈ nodes → unvisitedCount (nodes.filter guarded) vis * (R + 2) + rank i + 1 ≤ fuel →
+      ∃ s', gdescend g guarded fuel i vis = some s' ∧ ∀ x ∈ vis, x ∈ s' := by
+  intro fuel
+  induction fuel with
+  | zero => intro i vis _ h; omega
+  | succ fuel ih =>
+    intro i vis hi hfuel
+    cases hg : guarded i with
+    | true =>
+      by_cases hin : vis.contains i = true
+      · exact ⟨vis, by unfold gdescend; rw [if_pos hg, if_pos hin], fun x hx => hx⟩
+      · have hnot : i ∉ vis := by simpa using hin
+        have hig : i ∈ nodes.filter guarded := by simp [hi, hg]
+        have hlt : unvisitedCount (nodes.filter guarded) (vis ++ [i]) < unvisitedCount (nodes.filter guarded) vis :=
+          unvisited_strict _ vis (vis ++ [i]) (fun x hx => by simp [hx]) i hig hnot (by simp)
+        have hf : ∀ c ∈ nodes, ∀ s, (∀ x ∈ vis ++ [i], x ∈ s) →
+            ∃ s', gdescend g guarded fuel c s = some s' ∧ ∀ x ∈ s, x ∈ s' := by
+          intro c hcn s hs
+          have hm := unvisited_mono (nodes.filter guarded) (vis ++ [i]) s hs
+          have hrc := hR c hcn
+          apply ih c s hcn
+          have h1 : unvisitedCount (nodes.filter guarded) s + 1 ≤ unvisitedCount (nodes.filter guarded) vis := by omega
+          have h2 : (unvisitedCount (nodes.filter guarded) s + 1) * (R + 2) ≤ unvisitedCount (nodes.filter guarded) vis * (R + 2) :=
+            Nat.mul_le_mul_right _ h1
+          rw [Nat.add_mul] at h2
+          omega
+        obtain ⟨s', h1, hm⟩ := foldKids_ok nodes (gdescend g guarded fuel) (vis ++ [i]) hf (g i) (hc i hi) (vis ++ [i]) (fun x hx => hx)
+        refine ⟨s', ?_, fun x hx => hm x (by simp [hx])⟩
+        unfold gdescend; rw [if_pos hg, if_neg hin]
+        exact h1
+    | false =>
+      have hf : ∀ c ∈ g i, ∀ s, (∀ x ∈ vis, x ∈ s) →
+          ∃ s', gdescend g guarded fuel c s = some s' ∧ ∀ x ∈ s, x ∈ s' := by
+        intro c hcg s hs
+        have hm := unvisited_mono (nodes.filter guarded) vis s hs
+        have hlt := hr i hg c hcg
+        apply ih c s (hc i hi c hcg)
+        have h2 : unvisitedCount (nodes.filter guarded) s * (R + 2) ≤ unvisitedCount (nodes.filter guarded) vis * (R + 2) :=
+          Nat.mul_le_mul_right _ hm
+        omega
+      -- the children of an unguarded object: fold with the hypothesis restricted to `g i`
+      have key : ∀ (cs : List Nat), (∀ c ∈ cs, c ∈ g i) → ∀ s, (∀ x ∈ vis, x ∈ s) →
+          ∃ s', foldKids (gdescend g guarded fuel) cs s = some s' ∧ ∀ x ∈ s, x ∈ s' := by
+        intro cs
+        induction cs with
+        | nil => intro _ s _; exact ⟨s, rfl, fun x hx => hx⟩
+        | cons c cs ihc =>
+          intro hcs s hs
+          obtain ⟨s1, h1, hm1⟩ := hf c (hcs c List.mem_cons_self) s hs
+          obtain ⟨s2, h2, hm2⟩ := ihc (fun c' hc' => hcs c' (List.mem_cons_of_mem _ hc')) s1 (fun x hx => hm1 x (hs x hx))
+          exact ⟨s2, by simp [foldKids, h1, h2], fun x hx => hm2 x (hm1 x hx)⟩
+      obtain ⟨s', h1, hm⟩ := key (g i) (fun c hc => hc) vis (fun x hx => hx)
+      refine ⟨s', ?_, hm⟩
+      unfold gdescend; rw [if_neg (by simp [hg])]
+      exact h1
+
+/-- an unguarded self-loop runs out of every amount of fuel -/
+theorem gdescend_selfloop (fuel : Nat) : gdescend (fun _ => [0]) (fun _ => false) fuel 0 [] = none := by
+  induction fuel with
+  | zero => rfl
+  | succ fuel ih => simp [gdescend, foldKids, ih]
+
 /-- a self-loop whose edge drops the stack never terminates -/
 theorem validateDropping_selfloop (fuel : Nat) :
     validateDropping (fun _ => [0]) (fun _ _ => true) fuel 0 [] = none := by
